@@ -4,7 +4,7 @@ import z3
 
 import ops
 from ops import truthy, zand, zor, znot, asz, lift
-from core import (SVal, TupleVal, LocalDict, FuncVal, ClassVal, ModuleVal, ExcVal, KRef, KEnum, KName,
+from core import (CaughtExc, SVal, TupleVal, LocalDict, FuncVal, ClassVal, ModuleVal, ExcVal, KRef, KEnum, KName,
                   KInt, KReal, KBool, KStr, KOpt, KList, KDict, KSet, KCounter, KTuple, KExt, KVec,
                   CheckerError, fresh_name, fresh_val, I, B, R)
 from engine_expr import is_exc, BINOPS
@@ -206,12 +206,14 @@ class StmtMixin:
             for s2, vals in self.seq(list(e.args), st, fr):
                 outs.append(self.exc_out(s2, vals) if is_exc(vals) else (s2, ('raise', ExcVal(name, args=tuple(vals)))))
             return outs
+        if isinstance(e, ast.Name) and isinstance(st.env.get(e.id), CaughtExc):
+            return [(st, ('raise', st.env[e.id].exc))]
         return [(st, ('raise', ExcVal(self.exc_name(e, st, fr))))]
 
     def exc_name(self, e, st, fr):
         if isinstance(e, ast.Name):
-            if e.id in st.env and isinstance(st.env[e.id], ExcVal):
-                return st.env[e.id].etype
+            if e.id in st.env and isinstance(st.env[e.id], CaughtExc):
+                return st.env[e.id].exc.etype
             return e.id
         if isinstance(e, ast.Attribute):
             return e.attr
@@ -508,6 +510,10 @@ class StmtMixin:
         for it in s.items:
             ce = it.context_expr
             name = ast.unparse(ce.func) if isinstance(ce, ast.Call) else ast.unparse(ce)
+            if name == 'open' and len(ce.args) == 2 and isinstance(ce.args[1], ast.Constant) and ce.args[1].value == 'w':
+                pv = self.ev1(ce.args[0], st, fr)
+                self.open_for_write(st, pv)
+                continue
             if name in self.TRANSPARENT_WITH:
                 self.stats['dropped'].add('with %s' % name)
                 if it.optional_vars is not None and isinstance(it.optional_vars, ast.Name):
@@ -528,7 +534,7 @@ class StmtMixin:
                     if self.handler_matches(h, exc, fr):
                         handled = True
                         if h.name:
-                            s2.env[h.name] = exc
+                            s2.env[h.name] = CaughtExc(exc)
                         prev = s2.env.get('$handling')
                         s2.env['$handling'] = exc
                         for s3, oc3 in self.ex(h.body, s2, fr):
